@@ -194,6 +194,8 @@ pub enum Op {
     ProbeHeadroom { s: u8 },
     /// removes every key that steering added (keys above the universe); removals move nothing
     RemoveFresh { s: u8 },
+    /// removes every element with `remove` (tombstones stay behind in tables of >= 16 buckets)
+    RemoveAll { s: u8 },
     /// get() of every key either map holds, in both maps (C14)
     CrossGet,
     // feature checks that need a state
@@ -258,6 +260,7 @@ impl Op {
             Op::ProbeHeadroom { .. } => "probe_headroom",
             Op::RemoveFresh { .. } => "remove_fresh",
             Op::CrossGet => "cross_get",
+            Op::RemoveAll { .. } => "remove_all",
             Op::ParCheck { .. } => "par_check",
             Op::SerdeCheck { .. } => "serde_check",
             Op::SetPoint { which, .. } => match which % 9 {
